@@ -84,7 +84,7 @@ def specs(tier: str):
 def run(tier: str) -> int:
     return gc.run_model_check(C03(), specs(tier), tier, "model_checking",
                               bounds=[{"n": n, "exact_size": ex, "L": L, "silent_start_variant": s, "alphabet": families.SIGMA_CORE} for n, ex, L, s in BOUNDS[tier]],
-                              rule="every expression with <= n nodes over terminals {\"a\",\"b\",\"ab\",^\"a\",'a'..'b',ANY,EOI,SOI,ASCII_HEX_DIGIT (a built-in made of several ranges),n,s} (n = {\"a\"}, s = _{ n ~ \"b\" }), "
+                              rule="every expression with <= n nodes over terminals {\"a\",\"b\",\"ab\",\"\" (the empty literal),^\"a\",'a'..'b',ANY,EOI,SOI,ASCII_HEX_DIGIT (a built-in made of several ranges),n,s} (n = {\"a\"}, s = _{ n ~ \"b\" }), "
                                    "unary operators ( ) ? * + {2} {1,} {,2} {1,2} & ! and binary ~ |, filtered for well-formedness (no repetition over a nullable operand), "
                                    "as the body of a normal start rule r and a silent start rule q, x every string over {a,b,A} up to length L, in mode IU, against the reference model; "
                                    "plus every expression with <= 2 nodes over {NEWLINE, \"a\", \"\\n\", ANY} on every string over {a, \\r, \\n} up to length 4; "
